@@ -13,12 +13,17 @@ import (
 	"fmt"
 	"io"
 	"log"
+	"net"
 	"net/http"
 	"net/http/httptest"
+	"os"
+	"runtime"
 	"sort"
 	"strconv"
 	"strings"
 	"sync"
+	"syscall"
+	"time"
 
 	"github.com/a-h/templ"
 
@@ -51,6 +56,8 @@ type outcome struct {
 	Sizes []int  `json:"chunk_sizes"`
 	Seed  uint64 `json:"chunk_seed"` // chunk i holds fill(seed, i, size)
 	Fails bool   `json:"fails"`
+	// which error value Render returns when it fails (see errKinds); "" = "plain"
+	ErrKind string `json:"error_kind,omitempty"`
 }
 
 type tcase struct {
@@ -102,17 +109,140 @@ func (o outcome) chunks() [][]byte {
 
 var errRender = errors.New("c11: component failed")
 
-func component(chunks [][]byte, fails bool) templ.Component {
+// ---------- the error values a failing component returns ----------
+// The handler may not treat any non-nil error as success: the kind of error is a dimension of the cases.
+
+type ptrErr struct{ msg string }
+
+func (e *ptrErr) Error() string { // a nil *ptrErr stored in an error interface is a non-nil error
+	if e == nil {
+		return "c11: typed nil error"
+	}
+	return e.msg
+}
+
+type isAnything struct{}
+
+func (isAnything) Error() string        { return "c11: error that claims to be every error" }
+func (isAnything) Is(target error) bool { return true }
+
+type timeoutErr struct{}
+
+func (timeoutErr) Error() string   { return "c11: i/o timeout" }
+func (timeoutErr) Timeout() bool   { return true }
+func (timeoutErr) Temporary() bool { return true }
+
+type errKind struct {
+	name string
+	mk   func() error
+}
+
+func cancelledSubContextErr() error {
+	sub, cancel := context.WithCancel(context.Background())
+	cancel()
+	return sub.Err()
+}
+
+func expiredSubContextErr() error {
+	sub, cancel := context.WithDeadline(context.Background(), time.Unix(0, 0))
+	defer cancel()
+	<-sub.Done()
+	return sub.Err()
+}
+
+var errKinds = []errKind{
+	{"plain", func() error { return errRender }},
+	{"context.Canceled", func() error { return context.Canceled }},
+	{"context.DeadlineExceeded", func() error { return context.DeadlineExceeded }},
+	{"wrapped context.Canceled", func() error { return fmt.Errorf("loading items: %w", context.Canceled) }},
+	{"wrapped context.DeadlineExceeded", func() error { return fmt.Errorf("query: %w", context.DeadlineExceeded) }},
+	{"Err() of a cancelled sub-context", cancelledSubContextErr},
+	{"Err() of an expired sub-context", expiredSubContextErr},
+	{"io.EOF", func() error { return io.EOF }},
+	{"io.ErrUnexpectedEOF", func() error { return io.ErrUnexpectedEOF }},
+	{"io.ErrShortWrite", func() error { return io.ErrShortWrite }},
+	{"io.ErrClosedPipe", func() error { return io.ErrClosedPipe }},
+	{"http.ErrAbortHandler", func() error { return http.ErrAbortHandler }},
+	{"http.ErrHandlerTimeout", func() error { return http.ErrHandlerTimeout }},
+	{"http.ErrBodyNotAllowed", func() error { return http.ErrBodyNotAllowed }},
+	{"syscall.EPIPE", func() error { return syscall.EPIPE }},
+	{"syscall.ECONNRESET", func() error { return syscall.ECONNRESET }},
+	{"net.OpError{write, EPIPE}", func() error { return &net.OpError{Op: "write", Net: "tcp", Err: syscall.EPIPE} }},
+	{"net.ErrClosed", func() error { return net.ErrClosed }},
+	{"os.ErrDeadlineExceeded", func() error { return os.ErrDeadlineExceeded }},
+	{"os.ErrNotExist", func() error { return os.ErrNotExist }},
+	{"empty message", func() error { return errors.New("") }},
+	{"wrapped plain", func() error { return fmt.Errorf("render: %w", errRender) }},
+	{"templ.Error{plain}", func() error { return templ.Error{Err: errRender, Line: 3, Col: 7} }},
+	{"templ.Error{context.Canceled}", func() error { return templ.Error{Err: context.Canceled, Line: 1, Col: 2} }},
+	{"templ.Error{context.DeadlineExceeded}", func() error { return templ.Error{Err: context.DeadlineExceeded, FileName: "x.templ"} }},
+	{"templ.Error{io.EOF}", func() error { return templ.Error{Err: io.EOF} }},
+	{"templ.Error{nil}", func() error { return templ.Error{} }},
+	{"errors.Join(plain, context.Canceled)", func() error { return errors.Join(errRender, context.Canceled) }},
+	{"errors.Join(io.EOF)", func() error { return errors.Join(io.EOF) }},
+	{"typed nil pointer", func() error { var p *ptrErr; return p }},
+	{"Is() true for every target", func() error { return isAnything{} }},
+	{"net.Error-like timeout", func() error { return timeoutErr{} }},
+}
+
+func errName(o outcome) string {
+	if o.ErrKind == "" {
+		return "plain"
+	}
+	return o.ErrKind
+}
+
+func mkErr(kind string) error {
+	for _, k := range errKinds {
+		if k.name == kind {
+			return k.mk()
+		}
+	}
+	return errRender
+}
+
+func sameErr(a, b error) (ok bool) {
+	defer func() {
+		if recover() != nil {
+			ok = false
+		}
+	}()
+	return a == b
+}
+
+// compOpts: how the component behaves besides what it writes.
+type compOpts struct {
+	blockAt int           // block after this many chunks (when gate != nil) until the gate opens
+	reached chan struct{} // closed when the component is blocked mid-render
+	gate    chan struct{}
+	yield   bool // let other goroutines run between chunks
+}
+
+func component(chunks [][]byte, err error, co *compOpts) templ.Component {
 	return templ.ComponentFunc(func(ctx context.Context, w io.Writer) error {
-		for _, ch := range chunks {
-			if _, err := w.Write(ch); err != nil {
-				return err
+		for i, ch := range chunks {
+			if co != nil && co.gate != nil && i == co.blockAt {
+				close(co.reached)
+				select {
+				case <-co.gate:
+				case <-time.After(20 * time.Second):
+				}
+			}
+			if co != nil && co.yield {
+				runtime.Gosched()
+			}
+			if _, werr := w.Write(ch); werr != nil {
+				return werr
 			}
 		}
-		if fails {
-			return errRender
+		if co != nil && co.gate != nil && co.blockAt >= len(chunks) {
+			close(co.reached)
+			select {
+			case <-co.gate:
+			case <-time.After(20 * time.Second):
+			}
 		}
-		return nil
+		return err
 	})
 }
 
@@ -140,7 +270,13 @@ func opsHandler(ops []op) http.Handler {
 }
 
 // handlerFor builds the real templ handler for a case, through the exported API only.
-func handlerFor(tc tcase, chunks [][]byte) http.Handler {
+func handlerFor(tc tcase, chunks [][]byte) http.Handler { return handlerForOpt(tc, chunks, nil) }
+
+func handlerForOpt(tc tcase, chunks [][]byte, co *compOpts) http.Handler {
+	var renderErr error
+	if tc.Out.Fails {
+		renderErr = mkErr(tc.Out.ErrKind)
+	}
 	var opts []func(*templ.ComponentHandler)
 	if tc.Cfg.Status != 0 {
 		opts = append(opts, templ.WithStatus(tc.Cfg.Status))
@@ -151,7 +287,7 @@ func handlerFor(tc tcase, chunks [][]byte) http.Handler {
 	if tc.Cfg.EH != nil {
 		ops := *tc.Cfg.EH
 		opts = append(opts, templ.WithErrorHandler(func(r *http.Request, err error) http.Handler {
-			if !errors.Is(err, errRender) {
+			if !sameErr(err, renderErr) { // the error handler must be given the component's own error
 				return http.HandlerFunc(func(w http.ResponseWriter, r *http.Request) {
 					http.Error(w, "c11: error handler received a different error", 599)
 				})
@@ -162,7 +298,7 @@ func handlerFor(tc tcase, chunks [][]byte) http.Handler {
 	if tc.Cfg.Stream {
 		opts = append(opts, templ.WithStreaming())
 	}
-	return templ.Handler(component(chunks, tc.Out.Fails), opts...)
+	return templ.Handler(component(chunks, renderErr, co), opts...)
 }
 
 // ---------- drivers: recorder and real server ----------
@@ -365,7 +501,11 @@ func product(sts []int, cts []*string, es []*[]op, pats [][]int, seed *uint64) [
 					for _, eh := range es {
 						for _, stream := range []bool{false, true} {
 							*seed++
-							r = append(r, tcase{config{st, ct, eh, stream}, outcome{pat, *seed, fails}})
+							o := outcome{Sizes: pat, Seed: *seed, Fails: fails}
+							if fails {
+								o.ErrKind = errKinds[int(*seed%uint64(len(errKinds)))].name
+							}
+							r = append(r, tcase{config{st, ct, eh, stream}, o})
 						}
 					}
 				}
@@ -457,6 +597,9 @@ func randCase(r *rng.R, bigOK bool) tcase {
 	c.Stream = r.Intn(4) == 0
 	k := r.Intn(9)
 	o := outcome{Seed: r.U64(), Fails: r.Intn(3) != 0}
+	if o.Fails {
+		o.ErrKind = errKinds[r.Intn(len(errKinds))].name
+	}
 	big := 0
 	for i := 0; i < k; i++ {
 		n := randSize(r, bigOK && big < 2)
@@ -588,7 +731,7 @@ func why(o obs) string {
 }
 
 func Run(c *core.Ctx) {
-	c.Rule = "cases = (handler configuration, component outcome, transport): configuration = status unset/set x content type default/set/empty x error handler unset/silent/writing headers, status, body x streaming off/on; outcome = k chunks (k = 0..8 and 40, sizes 0, 1, around 4096, around 65536, 200000) then success or failure; each served by the real templ.Handler into an httptest.ResponseRecorder and over a real httptest.Server round trip. distinct non-trivial = distinct (configuration, chunk sizes, fails, transport) in which the component fails or writes at least 4095 bytes"
+	c.Rule = "cases = (handler configuration, component outcome, transport): configuration = status unset/set x content type default/set/empty x error handler unset/silent/writing headers, status, body x streaming off/on; outcome = k chunks (k = 0..8 and 40, sizes 0, 1, around 4096, around 65536, 200000) then success or failure with one of 32 kinds of error value (plain, context.Canceled/DeadlineExceeded bare, wrapped, from a sub-context, inside templ.Error or errors.Join, io/net/syscall/http sentinels, typed nil, Is()-everything ...); each served by the real templ.Handler into an httptest.ResponseRecorder and over a real httptest.Server round trip. distinct non-trivial = distinct (configuration, chunk sizes, fails, transport) in which the component fails or writes at least 4095 bytes"
 	c.Trusted = append(c.Trusted,
 		"specification spec/HandlerSpec.v (all_or_nothing over status, header map, body)",
 		"extraction: ExtrOcamlBasic only; ocaml/driver.ml (hex line protocol); request decoding in coq/extract/X11.v",
@@ -606,6 +749,20 @@ func Run(c *core.Ctx) {
 	// 1. full product of configurations on small outputs (first, so that the first failure is minimal)
 	cases = append(cases, product(statuses, ctypes, ehs, smallPatterns, &seed)...)
 	nSmall := len(cases)
+	// 1b. every kind of error value a component can fail with x failure point x configuration
+	for _, ek := range errKinds {
+		for _, pat := range [][]int{{}, {7}, {5, 0, 9}} {
+			for _, st := range []int{0, 201} {
+				for _, eh := range []*[]op{nil, ehs[1], ehs[2]} {
+					for _, stream := range []bool{false, true} {
+						seed++
+						cases = append(cases, tcase{config{st, nil, eh, stream}, outcome{Sizes: pat, Seed: seed, Fails: true, ErrKind: ek.name}})
+					}
+				}
+			}
+		}
+	}
+	c.Extra["error_kinds"] = len(errKinds)
 	// 2. outputs around the 4 KB buffer sizes
 	if c.Quick() {
 		cases = append(cases, product([]int{0, 201}, []*string{nil, &ctJSON}, ehs, mediumPatterns, &seed)...)
@@ -714,9 +871,9 @@ func Run(c *core.Ctx) {
 
 	contrast(c, srv)
 	rwContract(c, srv)
-	if !c.Quick() {
-		concurrent(c, srv)
-	}
+	overlapping(c)
+	concurrent(c, srv, c.N(1500, 8000))
+	poolDiscipline(c, "after the whole run")
 	for i, o := range all {
 		if i%(len(all)/6+1) == 0 || (o.tc.Out.Fails && len(c.Samples) < 3) {
 			c.Sample(map[string]any{"config": o.tc.Cfg, "chunk_sizes": o.tc.Out.Sizes, "fails": o.tc.Out.Fails, "via": o.via,
@@ -781,6 +938,9 @@ func checkBatch(c *core.Ctx, all []obs, from int, reqs []drv.Req) {
 			}
 			c.Hist(mode + " / component " + res + " / error handler " + ehKind(o.tc.Cfg))
 			c.Hist("output: " + sizeClass(o.tc.Out.Sizes))
+			if o.tc.Out.Fails {
+				c.Hist("error kind: " + errName(o.tc.Out))
+			}
 			c.Hist("transport: " + via)
 			family := "handler: " + mode + ", " + via
 			if !tie {
@@ -821,8 +981,8 @@ func contrast(c *core.Ctx, srv *server) {
 	ok := true
 	detail := ""
 	for _, run := range []func(http.Handler) response{viaRecorder, srv.run} {
-		s := run(templ.Handler(component(hello, true), templ.WithStreaming()))
-		b := run(templ.Handler(component(hello, true)))
+		s := run(templ.Handler(component(hello, errRender, nil), templ.WithStreaming()))
+		b := run(templ.Handler(component(hello, errRender, nil)))
 		c.Count("")
 		c.Count("")
 		if !(s.Status == 200 && string(s.Body) == want) {
@@ -893,10 +1053,9 @@ func rwContract(c *core.Ctx, srv *server) {
 	c.Oblige("contract", "ResponseWriter model = net/http server + client round trip on random call sequences", okSrv, "")
 }
 
-// concurrent (thorough tier): many clients at once against the real server, buffered handlers only;
+// concurrent: many clients at once against the real server, buffered handlers only;
 // every response must satisfy the specification predicate for its own case.
-func concurrent(c *core.Ctx, srv *server) {
-	n := 6000
+func concurrent(c *core.Ctx, srv *server, n int) {
 	cases := make([]tcase, n)
 	chunks := make([][][]byte, n)
 	paths := make([]string, n)
@@ -906,7 +1065,7 @@ func concurrent(c *core.Ctx, srv *server) {
 		tc.Cfg.Stream = false
 		cases[i] = tc
 		chunks[i] = tc.Out.chunks()
-		paths[i] = srv.register(handlerFor(tc, chunks[i]))
+		paths[i] = srv.register(handlerForOpt(tc, chunks[i], &compOpts{yield: true}))
 		if tc.Cfg.EH != nil {
 			ehr[i] = srv.run(ehAloneHandler(*tc.Cfg.EH, tc.Cfg.ctype()))
 		}
